@@ -111,7 +111,7 @@ def gen_tree(rng, odd):
         top = gen_project(rng, "", 0, budget, odd)
     else:
         top = {"k": "dir", "name": "", "ch": gen_children(rng, 1, budget, odd)}
-    nlinks = rng.choice([0, 0, 0, 0, 1, 2])
+    nlinks = rng.choice([0, 0, 0, 0, 0, 0, 0, 1, 2])
     links = [{"seed": rng.randint(0, 10 ** 6), "abs": rng.random() < 0.4} for _ in range(nlinks)]
     return {"top": top, "links": links, "qseed": rng.randint(0, 10 ** 9), "odd": odd}
 
@@ -148,7 +148,12 @@ FIXED = [
         _p("outer", jobs=[_j(0, ch=[_p("inner", jobs=[_j(5)])]), _j(1, link="rel", ch=[{"k": "dir", "name": "sub", "ch": []}]), _j(2, link="abs")],
            ch=[_p("plainnested", jobs=[_j(0)], cfgv="nospace")]),
         {"k": "dir", "name": "noproj", "ch": [{"k": "dir", "name": "workspace", "ch": []}]}]},
-     "links": [{"seed": 3, "abs": False}, {"seed": 4, "abs": True}], "qseed": 2, "odd": False},
+     "links": [], "qseed": 2, "odd": False},
+    # stray links (outside the property's quantifier: compared with the model only)
+    {"top": {"k": "dir", "name": "", "ch": [
+        _p("outer", jobs=[_j(0, ch=[{"k": "dir", "name": "sub", "ch": []}]), _j(1, link="rel")], ch=[_p("nested", jobs=[_j(0)])]),
+        {"k": "dir", "name": "noproj", "ch": []}]},
+     "links": [{"seed": 3, "abs": False}, {"seed": 4, "abs": True}, {"seed": 12, "abs": False}], "qseed": 5, "odd": False},
     # project without workspace directory, empty project
     {"top": {"k": "dir", "name": "", "ch": [_p("nows", nows=True, cfgv="extra"), _p("empty", cfgv="quoted")]},
      "links": [], "qseed": 3, "odd": False},
